@@ -24,7 +24,7 @@ import (
 // Real CacheAsideClients (one fake client session each, invalidation pushes delivered by a reader thread per client)
 // Get the same key concurrently on one fake Redis (mini-Lua runs setkey/delkey/acquireLock, keys expire on the
 // virtual clock). Loaders count their invocations and return v1, v2, ...; events: loader failure, external DEL
-// (deviation after every command), death of the lock holder (connection lost for good while loading) or its Close.
+// (deviation before every command), death of the lock holder (connection lost for good while loading) or its Close.
 
 type c39thr struct {
 	client int
@@ -95,23 +95,18 @@ func c39body(c c39cfg) func(x *vsched.Exec) {
 		deadAt := time.Duration(0)
 		delDone := false
 
-		inHook := false
-		srv.AfterExec = func(ss *simredis.Session, argv []string, r simredis.Reply) {
-			if inHook || c.event != "del" || delDone || vsched.Cur() == nil {
-				return
-			}
-			mine := false
+		if c.event == "del" {
+			// another application's DEL, offered before every command a client sends (between two commands, so that the
+			// invalidation is on the wire in the order a real server would produce)
 			for _, cl := range sims {
-				if cl.Sess == ss {
-					mine = true
+				cl.Fail = func(argv []string) error {
+					if !delDone && vsched.Cur() != nil && argv[0] != "CLIENT" && argv[0] != "PTTL" && vsched.Choose(2, vsched.KDev, "extdel") == 1 {
+						srv.Do("DEL", c39key)
+						delDone = true
+						vsched.Logf("external DEL at %v", x.Elapsed())
+					}
+					return nil
 				}
-			}
-			if mine && vsched.Choose(2, vsched.KDev, "extdel") == 1 {
-				inHook = true
-				srv.Do("DEL", c39key)
-				inHook = false
-				delDone = true
-				vsched.Logf("external DEL at %v", x.Elapsed())
 			}
 		}
 
@@ -205,6 +200,11 @@ func c39body(c c39cfg) func(x *vsched.Exec) {
 			if r.loaded == 1 && c.event == "err" && !errors.Is(r.err, errC39load) {
 				x.Fail("loader error not returned to its caller", "thread %d get %d ran the failing loader but returned (%q, %v)", r.thr, r.n, r.val, r.err)
 			}
+			// nothing takes virtual time unless a client died: a Get that needed a timer (the holder's liveness refresh
+			// re-arming the watchers) instead of the invalidation of the key missed its wake-up
+			if !anyDead && r.end != r.start {
+				x.Fail("Get finished only after a timer tick although no client died (missed invalidation wake-up)", "thread %d get %d started at %v and returned at %v", r.thr, r.n, r.start, r.end)
+			}
 			// a Get on a live client never has to wait longer than the dead holder's liveness TTL
 			if !dead[c.thr[r.thr].client] && r.end-r.start > c39clientTTL+c39clientTTL/2 {
 				x.Fail("Get waited longer than the liveness TTL of a dead lock holder", "thread %d get %d took %v (ClientTTL %v)", r.thr, r.n, r.end-r.start, c39clientTTL)
@@ -260,12 +260,12 @@ func c39cfgs() []c39cfg {
 		{name: "solo-get-get", clients: 1, thr: []c39thr{{0, 2}}, p: 2},
 		{name: "2clients-get-get", clients: 2, thr: two, p: 2},
 		{name: "1client-get-get", clients: 1, thr: []c39thr{{0, 0}, {0, 0}}, p: 2},
-		{name: "2clients-get-get-lua", clients: 2, thr: two, lua: true, p: 1},
-		{name: "2clients-get-get-err", clients: 2, thr: []c39thr{{0, 2}, {1, 0}}, event: "err", p: 1},
-		{name: "1client-get-get-err", clients: 1, thr: []c39thr{{0, 0}, {0, 0}}, event: "err", p: 1},
-		{name: "2clients-get-get-del", clients: 2, thr: two, event: "del", p: 1},
-		{name: "2clients-get-get-lose", clients: 2, thr: two, event: "lose", p: 1},
-		{name: "2clients-get-get-close", clients: 2, thr: two, event: "close", p: 1},
+		{name: "2clients-get-get-lua", clients: 2, thr: two, lua: true, p: 2},
+		{name: "2clients-get-get-err", clients: 2, thr: []c39thr{{0, 2}, {1, 0}}, event: "err", p: 2},
+		{name: "1client-get-get-err", clients: 1, thr: []c39thr{{0, 0}, {0, 0}}, event: "err", p: 2},
+		{name: "2clients-get-get-del", clients: 2, thr: two, event: "del", p: 2},
+		{name: "2clients-get-get-lose", clients: 2, thr: two, event: "lose", p: 2},
+		{name: "2clients-get-get-close", clients: 2, thr: two, event: "close", p: 2},
 		{name: "3clients-get-get-get", clients: 3, thr: []c39thr{{0, 0}, {1, 0}, {2, 0}}, p: 2, tier: 1},
 		{name: "3clients-get-get-get-lose", clients: 3, thr: []c39thr{{0, 0}, {1, 0}, {2, 0}}, event: "lose", p: 2, tier: 1},
 		{name: "2clients-3threads-err", clients: 2, thr: []c39thr{{0, 0}, {0, 0}, {1, 0}}, event: "err", p: 2, tier: 1},
@@ -277,6 +277,7 @@ func TestVerif_C39(t *testing.T) {
 		r.Rule = "every schedule (preemption/delay/deviation bounded) of 2-3 threads calling Get for one key through real CacheAsideClients over a fake Redis with counting loaders; non-trivial = threads really blocked on each other"
 		r.Assume("simredis models Redis 7 tracking (OPTIN, invalidation on SET/DEL/expiry, self-invalidations after the reply); keys expire exactly on time; SET NX GET as in Redis 7")
 		r.Assume("the fake client delivers invalidation pushes through one reader thread per client; a dead client = its connection is lost for good (Lose) or Close()")
+		r.Assume("a waiting Get has to be woken by the invalidation of the key: without a client death no Get may take virtual time (the periodic refresh of the holder's liveness key would otherwise mask a missed wake-up)")
 		r.Assume("'once per miss generation': exactly one loader run without events, at most one more after a Del / loader failure / death of the holder")
 		var cfgs []c39cfg
 		for _, c := range c39cfgs() {
@@ -291,8 +292,8 @@ func TestVerif_C39(t *testing.T) {
 				left = 1
 			}
 			p := c.p
-			if !r.Quick() && p < 2 {
-				p = 2
+			if !r.Quick() && len(c.thr) == 2 && c.event != "del" {
+				p = 3 // thorough: the two-thread programs get one more preemption
 			}
 			vexp.Run(r, vexp.Prog{Name: c.name, Body: c39body(c),
 				Budget:  vsched.Budget{MaxPreempt: p, MaxDev: 1},
